@@ -221,6 +221,20 @@ class Tagger:
                         inner = [("alt", inner, alt)]
                 out += inner
             elif isinstance(s, ast.For) and isinstance(
+                    s.iter, ast.Name) and isinstance(
+                    s.target, ast.Name) and not s.orelse and isinstance(
+                    self.const(s.iter), tuple) and all(isinstance(
+                        v_, (str, int)) for v_ in self.const(s.iter)):
+                # a loop over a module-level tuple of keys: as if the tuple
+                # were written in place
+                import copy as _cp2
+                s2 = _cp2.copy(s)
+                s2.iter = ast.Tuple(elts=[ast.Constant(value=v_) for v_ in
+                                          self.const(s.iter)],
+                                    ctx=ast.Load())
+                ast.fix_missing_locations(s2)
+                out += self.stream([s2])
+            elif isinstance(s, ast.For) and isinstance(
                     s.iter, (ast.Tuple, ast.List)) and isinstance(
                     s.target, ast.Name) and not s.orelse:
                 # a loop over a literal list of keys: one copy of the body
@@ -376,6 +390,19 @@ def _csv_writer(ctx: Ctx, mod: Module) -> None:
         detail = (f"{mod.name.split('.')[-1]}.CsvWriter: column {k}: the "
                   f"title is {ts[k] if k < len(ts) else 'missing'} but the "
                   f"row value is {rs[k] if k < len(rs) else 'missing'}")
+
+        def opaque_(t: Any) -> bool:
+            if isinstance(t, (tuple, list)):
+                if len(t) >= 1 and t[0] == "expr":
+                    return True
+                if len(t) >= 2 and t[0] == "sub" and t[1] == "?":
+                    return True
+                return any(opaque_(x) for x in t)
+            return False
+        if (k < len(ts) and opaque_(ts[k])) or (
+                k < len(rs) and opaque_(rs[k])):
+            detail += (" - one side is computed in a way that is not "
+                       "recognised")
     ctx.ob("D19.1", tm, tm.node, ok, detail,
            construct=f"{mod.name.split('.')[-1]} titles vs rows",
            witness=None if ok else {"titles": repr(ts)[:400],
@@ -475,11 +502,21 @@ def _csv_reader(ctx: Ctx, mod: Module, rec_name: str) -> None:
         if isinstance(lp_, ast.For) and isinstance(
                 lp_.iter, (ast.Tuple, ast.List)):
             emitted |= {repo.const(mod, e_) for e_ in lp_.iter.elts}
+        elif isinstance(lp_, ast.For) and isinstance(lp_.iter, ast.Name):
+            tv_ = repo.const(mod, lp_.iter)
+            if isinstance(tv_, tuple):
+                emitted |= set(tv_)
     missing = sorted(set(idx_key.values()) - emitted)
+    # a title whose key is computed (not a constant, not a loop over
+    # constants) may be any key: then "never emitted" cannot be concluded
+    opaque = None in emitted
     ctx.ob("D19.1", init, init.node, not missing,
            "every key the reader looks up is a key the writer emits" if
-           not missing else f"reader looks up {missing}, which the writer "
-           "never emits", construct=f"{mod.name.split('.')[-1]} key sets")
+           not missing else (
+               f"reader looks up {missing}; the writer's titles are partly "
+               "computed and not recognised as emitting them" if opaque else
+               f"reader looks up {missing}, which the writer never emits"),
+           construct=f"{mod.name.split('.')[-1]} key sets")
 
 
 def _fold(e: ast.expr, env: dict[str, Any]) -> Any:
@@ -1798,17 +1835,187 @@ def _first_line_forms(ctx: Ctx) -> None:
                 ok_w = csrc in (f"{base}.split('\\n')",
                                 f"{base}.splitlines()", f"[{base}]")
                 first_ext = created
+    why_w = ""
+    if not ok_w:
+        # general form: the first element of the list that is joined
+        from sa.srcmodel import fold_consts as _fc
+        fnode = _fc(repo, ot.module, ot.node)
+        fbody = func_body_of(fnode)
+        jn = None
+        for r in ast.walk(fnode):
+            if isinstance(r, ast.Return) and isinstance(
+                    r.value, ast.Call) and isinstance(
+                    r.value.func, ast.Attribute) and r.value.func.attr == \
+                    "join" and isinstance(
+                    r.value.func.value, ast.Constant) and \
+                    r.value.func.value.value == "\n" and len(
+                    r.value.args) == 1 and isinstance(
+                    r.value.args[0], ast.Name):
+                jn = r.value.args[0].id
+        first = None
+        if jn is not None:
+            cr_ = next((s_ for s_ in fbody if isinstance(
+                s_, (ast.Assign, ast.AnnAssign)) and s_.value is not None
+                and ast.unparse(s_.targets[0] if isinstance(s_, ast.Assign)
+                                else s_.target) == jn), None)
+            if cr_ is not None:
+                v_ = cr_.value
+                if isinstance(v_, ast.List) and v_.elts:
+                    first = v_.elts[0].value if isinstance(
+                        v_.elts[0], ast.Starred) else v_.elts[0]
+                elif isinstance(v_, ast.List):
+                    m_ = next((s_ for s_ in fbody if isinstance(
+                        s_, ast.Expr) and isinstance(s_.value, ast.Call)
+                        and isinstance(s_.value.func, ast.Attribute)
+                        and ast.unparse(s_.value.func.value) == jn
+                        and s_.value.args), None)
+                    first = m_.value.args[0] if m_ is not None else None
+                else:
+                    first = v_
+        if first is None:
+            why_w = ("the list of lines that OrderingSpace.to_str joins is "
+                     "not recognised")
+        else:
+            fs_ = ast.unparse(first)
+            stripped = fs_
+            for suf in (".split('\\n')", ".splitlines()"):
+                if stripped.endswith(suf):
+                    stripped = stripped[:-len(suf)]
+            if stripped == base:
+                ok_w = True
+            elif base in fs_:
+                why_w = (f"the first element `{fs_[:60]}` of the text form "
+                         "is not recognised")
+            else:
+                why_w = (f"OrderingSpace.to_str starts its text with "
+                         f"`{fs_[:60]}`, not with the base permutation text")
     ctx.ob("D19.3", ot, first_ext or ot.node, ok_w,
-           "OrderingSpace.to_str puts the base permutation text first",
+           "OrderingSpace.to_str puts the base permutation text first"
+           if ok_w or not why_w else why_w,
            construct="ordering first line")
-    ok_r = _keeps_first_line(of) and any(
+    sup = any(
         isinstance(n, ast.Call) and isinstance(n.func, ast.Attribute)
         and n.func.attr == "from_str" and isinstance(
             n.func.value, ast.Call) and ast.unparse(
             n.func.value.func) == "super" for n in ast.walk(of.node))
+    ok_r = _keeps_first_line(of) and sup
+    why_r = ""
+    if not ok_r and sup:
+        verdict, why_r = _first_line_verdict(ctx, of)
+        ok_r = verdict == "ok"
+        if verdict == "unknown":
+            why_r = ("the way OrderingSpace.from_str cuts out the first "
+                     f"line is not recognised ({why_r})")
     ctx.ob("D19.3", of, of.node, ok_r,
            "OrderingSpace.from_str keeps the first line and parses it with "
-           "the (validating) base reader", construct="ordering reader")
+           "the (validating) base reader" if ok_r or not why_r else why_r,
+           construct="ordering reader")
+
+
+def _first_line_verdict(ctx: Ctx, fi: FuncInfo) -> tuple[str, str]:
+    """How the reader cuts its text before handing it to the base reader,
+    path by path with locals inlined (constants folded): on the paths where
+    `T.find("\\n")` is positive the base reader gets `T[:pos]`, on the
+    others `T` itself (surrounding strip calls do not matter).
+    -> ("ok" | "wrong" | "unknown", detail)"""
+    from sa.pathinline import paths
+    from sa.srcmodel import fold_consts
+    node = fold_consts(ctx.repo, fi.module, fi.node)
+    try:
+        ps = paths(func_body_of(node))
+    except ValueError:
+        return "unknown", "too many paths"
+    seen = 0
+    for q in ps:
+        if q.ended != "return":
+            continue
+        ret = next((e for e in q.events if e.kind == "return"), None)
+        if ret is None or not isinstance(ret.value, ast.Call):
+            return "unknown", "return value"
+        c = ret.value
+        if not (isinstance(c.func, ast.Attribute) and c.func.attr ==
+                "from_str" and len(c.args) == 1):
+            return "unknown", f"`{ast.unparse(c)[:60]}`"
+        def unstrip(e: ast.expr) -> ast.expr:
+            while isinstance(e, ast.Call) and isinstance(
+                    e.func, ast.Attribute) and e.func.attr in (
+                    "strip", "rstrip", "lstrip") and not e.args:
+                e = e.func.value
+            return e
+        arg = unstrip(c.args[0])
+        # the decision of this path about the position of the line break
+        pos_truth = None
+        find_src = None
+        for t, truth in q.guards:
+            tt, tr = t, truth
+            while isinstance(tt, ast.UnaryOp) and isinstance(tt.op, ast.Not):
+                tt, tr = tt.operand, not tr
+            if not (isinstance(tt, ast.Compare) and len(tt.ops) == 1):
+                continue
+            l_, r_, op = tt.left, tt.comparators[0], type(tt.ops[0])
+            mirror = {ast.Lt: ast.Gt, ast.Gt: ast.Lt, ast.LtE: ast.GtE,
+                      ast.GtE: ast.LtE, ast.Eq: ast.Eq, ast.NotEq: ast.NotEq}
+            if isinstance(l_, ast.Constant) and op in mirror:
+                l_, r_, op = r_, l_, mirror[op]
+            if isinstance(l_, ast.Call) and isinstance(
+                    l_.func, ast.Attribute) and l_.func.attr == "find" and \
+                    len(l_.args) == 1 and isinstance(
+                    l_.args[0], ast.Constant) and l_.args[0].value == "\n" \
+                    and isinstance(r_, ast.Constant):
+                k = r_.value
+                positive = (op is ast.Gt and k in (0, -1)) or (
+                    op is ast.GtE and k in (0, 1)) or (
+                    op is ast.NotEq and k == -1)
+                negative = (op is ast.LtE and k in (0, -1)) or (
+                    op is ast.Lt and k in (0, 1)) or (
+                    op is ast.Eq and k == -1)
+                if not (positive or negative):
+                    return "unknown", f"test `{ast.unparse(tt)}`"
+                pos_truth = tr if positive else not tr
+                find_src = ast.unparse(l_)
+                base_txt = ast.unparse(l_.func.value)
+                base_un = ast.unparse(unstrip(l_.func.value))
+        seen += 1
+        a_src = ast.unparse(arg)
+        if pos_truth is None:
+            # a path that never looked for a line break
+            if ".find(" in a_src or "split" in a_src:
+                return "unknown", f"`{a_src[:60]}`"
+            return "unknown", "no test of the line-break position"
+        if pos_truth:
+            okc = isinstance(arg, ast.Subscript) and isinstance(
+                arg.slice, ast.Slice) and ast.unparse(
+                arg.value) == base_txt and arg.slice.step is None and (
+                arg.slice.lower is None or ast.unparse(
+                    arg.slice.lower) == "0") and arg.slice.upper is not None \
+                and ast.unparse(arg.slice.upper) == find_src
+            if not okc:
+                if a_src in (base_txt, base_un):
+                    return "wrong", ("with a line break in the text the "
+                                     "base reader still gets the whole text")
+                if isinstance(arg, ast.Subscript) and isinstance(
+                        arg.slice, ast.Slice) and ast.unparse(
+                        arg.value) == base_txt:
+                    return "wrong", (f"with a line break at pos the base "
+                                     f"reader gets `{a_src[:70]}`, not the "
+                                     "text before pos")
+                return "unknown", f"`{a_src[:60]}`"
+        elif a_src not in (base_txt, base_un):
+            if isinstance(arg, ast.Subscript) and ast.unparse(
+                    arg.value) in (base_txt, base_un):
+                return "wrong", ("without a line break (find(..) <= 0) the "
+                                 f"text is cut to `{a_src[:60]}`")
+            return "unknown", f"`{a_src[:60]}` without a line break"
+    return ("ok", "") if seen >= 2 else ("unknown", "paths")
+
+
+def func_body_of(node: ast.AST) -> list[ast.stmt]:
+    body = list(node.body)       # type: ignore[attr-defined]
+    if body and isinstance(body[0], ast.Expr) and isinstance(
+            body[0].value, ast.Constant) and isinstance(
+            body[0].value.value, str):
+        body = body[1:]
+    return body
 
 
 def _keeps_first_line(fi: FuncInfo) -> bool:
